@@ -466,8 +466,6 @@ Proof.
   - unfold onctr in H. destruct (cstp _ _ _); [|discriminate]. inversion H. simpl. apply cupd_other. congruence.
 Qed.
 
-Definition is_some {A} (o : option A) : bool := match o with Some _ => true | None => false end.
-
 Lemma refine_accept w a o : (forall c, table_ok c = true) -> RW w a -> is_some (wmstep w o) = is_some (wspec_step a o).
 Proof.
   intros T H. pose proof (refine_wstep w a o T H) as Hs. destruct (wmstep w o), (wspec_step a o); simpl; tauto.
